@@ -1,0 +1,115 @@
+package lexer
+
+import (
+	"io"
+	"unicode/utf8"
+
+	"github.com/moorara/algo/lexer"
+	"github.com/moorara/algo/lexer/input"
+)
+
+// source implements the inputBuffer interface over a specification held in memory as a whole.
+// It reports the end of the input only when every character has been read (also after a retraction),
+// and the time it takes does not depend on the size of the specification.
+type source struct {
+	filename string
+	data     []byte
+
+	lexemeBegin int // Marks the beginning of the current lexeme.
+	forward     int // Scans ahead until a pattern match is found.
+
+	offset     int // Tracks the offset (0-based), total number of runes, before lexemeBegin.
+	line       int // Tracks the line number (1-based) before lexemeBegin.
+	column     int // Tracks the column number (1-based) before lexemeBegin.
+	nextColumn int // Tracks the column number (1-based) of the next rune to be read by forward.
+
+	runeSizes   []int // Tracks the size of runes read between lexemeBegin and forward.
+	lastColumns []int // Tracks the last column numbers for each line between lexemeBegin and forward.
+}
+
+func newSource(filename string, data []byte) *source {
+	return &source{
+		filename:   filename,
+		data:       data,
+		line:       1,
+		column:     1,
+		nextColumn: 1,
+	}
+}
+
+// Next advances to the next rune in the input and returns it.
+// If the end of the input is reached, it returns the io.EOF error.
+func (s *source) Next() (rune, error) {
+	if s.forward >= len(s.data) {
+		return 0, io.EOF
+	}
+
+	r, size := utf8.DecodeRune(s.data[s.forward:])
+	if r == utf8.RuneError && size <= 1 {
+		return 0, &input.InputError{
+			Description: "invalid utf-8 character",
+			Pos: lexer.Position{
+				Filename: s.filename,
+				Offset:   s.offset + len(s.runeSizes),
+				Line:     s.line + len(s.lastColumns),
+				Column:   s.nextColumn,
+			},
+		}
+	}
+
+	s.forward += size
+	s.runeSizes = append(s.runeSizes, size)
+
+	if r == '\n' {
+		s.lastColumns = append(s.lastColumns, s.nextColumn)
+		s.nextColumn = 1
+	} else {
+		s.nextColumn++
+	}
+
+	return r, nil
+}
+
+// Retract recedes to the last rune in the input.
+func (s *source) Retract() {
+	if n := len(s.runeSizes); n > 0 {
+		s.forward -= s.runeSizes[n-1]
+		s.runeSizes = s.runeSizes[:n-1]
+
+		if s.data[s.forward] == '\n' {
+			if m := len(s.lastColumns); m > 0 {
+				s.nextColumn = s.lastColumns[m-1]
+				s.lastColumns = s.lastColumns[:m-1]
+			}
+		} else {
+			s.nextColumn--
+		}
+	}
+}
+
+// Lexeme returns the current lexeme alongside its position.
+func (s *source) Lexeme() (string, lexer.Position) {
+	lexeme := string(s.data[s.lexemeBegin:s.forward])
+	pos := s.Skip()
+
+	return lexeme, pos
+}
+
+// Skip skips over the pending lexeme in the input and returns its position.
+func (s *source) Skip() lexer.Position {
+	pos := lexer.Position{
+		Filename: s.filename,
+		Offset:   s.offset,
+		Line:     s.line,
+		Column:   s.column,
+	}
+
+	s.lexemeBegin = s.forward
+	s.offset += len(s.runeSizes)
+	s.line += len(s.lastColumns)
+	s.column = s.nextColumn
+	s.runeSizes = s.runeSizes[:0]
+	s.lastColumns = s.lastColumns[:0]
+
+	return pos
+}
